@@ -1,0 +1,15 @@
+//go:build verif
+
+// Hook for the external verification harness (/verif). Compiled only with
+// `-tags verif`. It adds no behaviour.
+
+package transactions
+
+// VerifHoldTimer parks the retry timer's function at its entry, as if its
+// goroutine had lost the CPU right after the timer fired, until the returned
+// function is called. Proceed must not be called in between (it would be
+// parked as well).
+func (t *RetryTransaction) VerifHoldTimer() (release func()) {
+	t.retryNumMutex.Lock()
+	return t.retryNumMutex.Unlock
+}
